@@ -766,3 +766,18 @@ fn failing_test_classgroup() {
     let d = parse_int("-333684818975420457430375646788");
     classgroup(&d, &prefs, None);
 }
+
+// ---------------------------------------------------------------------------
+// Verification hooks (add-only, compiled only with `--cfg yamaquasi_verif`).
+
+/// (adjsize, fb_size, interval_size, a_count, nfacs) as `classgroup()` selects them for the
+/// discriminant `d` (negative, 0 or 1 mod 4) with default preferences.
+#[cfg(yamaquasi_verif)]
+pub fn verif_c12_params(d: &Int) -> (u32, u32, u32, u32, u32) {
+    let bias = smoothness_bias(d);
+    let adjsize = max(1, d.unsigned_abs().bits() as i64 - (2.5 * bias).round() as i64) as u32;
+    let use_double = adjsize > 180;
+    let fb = clsgrp_fb_size(adjsize, use_double);
+    let (a_count, nfacs) = a_params(adjsize);
+    (adjsize, fb, interval_size(adjsize), a_count, nfacs)
+}
